@@ -219,9 +219,103 @@ def dynamic_worker(item):
     return acc
 
 
+class HoldAndRequest:
+    """trace factory: numbers the line events the job thread of the responder executes in controller_application.py; at the
+    chosen one two global requests (address claim, DM1) are put on the bus and the thread is held until they have been handled"""
+
+    def __init__(self, point):
+        self.point = point
+        self.count = 0
+        self.where = None
+        self.bus = None
+        self.seen = 0
+
+    def __call__(self, lt, idx):
+        if lt.kind != 'J':
+            return None
+        k = self.seen
+        self.seen += 1
+        if k != 0:
+            return None
+        me = self
+
+        def tracer(frame, event, arg):
+            if not frame.f_code.co_filename.endswith('controller_application.py'):
+                return tracer if event == 'call' else None
+            if event == 'line':
+                me.count += 1
+                if me.count == me.point:
+                    me.where = "%s:%d" % (frame.f_code.co_name, frame.f_lineno)
+                    g = me.bus.ghost_node()
+                    g.send((6 << 26) | (0xEA << 16) | (0xFF << 8) | 0x10, bytes([0x00, 0xEE, 0x00]))
+                    g.send((6 << 26) | (0xEA << 16) | (0xFF << 8) | 0x10, bytes([0xCA, 0xFE, 0x00]))
+                    rt.CUR.hold(0.004)
+            return tracer
+        return tracer
+
+
+def preempt_one(point, contender, keep=False):
+    from ..net import Bus, Stack
+    hold = HoldAndRequest(point)
+    w = rt.World(trace_factory=hold)
+    rt.activate(w)
+    try:
+        bus = Bus(w, base_lat=1e-3)
+        hold.bus = bus
+        S = Stack(bus, 'S')                      # first job thread of the world: the one that is held
+        nm = j1939.Name(arbitrary_address_capable=1, identity_number=0x77, manufacturer_code=0x123)
+        ca = j1939.ControllerApplication(nm, 0x90)
+        S.ecu.add_ca(controller_application=ca)
+        calls = []
+        ca.subscribe_request(lambda src, dest, pgn: calls.append((w.now, ca.state, ca.device_address, src, dest, pgn)))
+        w.run_for(0.005)
+        ca.start(claim_delay=0.0)
+        if contender:
+            # a lower NAME claims 0x90 during the veto window: the CA moves on to 0x91
+            w.at(w.now + 0.1, lambda: bus.ghost_node().send((6 << 26) | (0xEE << 16) | (0xFF << 8) | 0x90, bytes([1, 0, 0, 0, 0, 0, 0, 0])))
+        w.run_for(1.2)
+        probs = []
+        namev = bytes(nm.bytes)
+        for f in bus.log:
+            if f.src == 'S' and f.pf == 0xEE and f.sa == 254 and bytes(f.data) == namev:
+                probs.append("the CA announced cannot-claim (address-claimed from 254) although it never was in that state: a request handled while its claim state was being changed")
+                break
+        for (t, st, adr, src, dest, pgn) in calls:
+            if st != j1939.ControllerApplication.State.NORMAL or not (isinstance(adr, int) and 0 <= adr <= 253):
+                probs.append("a request callback ran for a CA in state %r holding address %r" % (st, adr))
+                break
+        if ca.state != j1939.ControllerApplication.State.NORMAL or ca.device_address != (0x91 if contender else 0x90):
+            probs.append("the CA did not end operational on %d (state %r, address %r)" % (0x91 if contender else 0x90, ca.state, ca.device_address))
+        if S.job.exc is not None:
+            probs.append("job thread dead: %s" % S.job.exc_type)
+        return hold.count, probs, hold.where, [f.brief() for f in bus.log] if keep else None
+    finally:
+        w.shutdown()
+
+
+def preempt_worker(item):
+    _k, contender, seed = item
+    acc = Acc()
+    n1, probs, _w, _t = preempt_one(0, contender)
+    n2 = preempt_one(0, contender)[0]
+    if n1 != n2 or probs:
+        acc.violation("HARNESS: pre-emption baseline not clean / not reproducible", {'kind': 'preempt', 'contender': contender}, None, probs[:2] + [repr((n1, n2))])
+        return acc
+    for pt in range(1, n1 + 1):
+        _n, probs, where, _t = preempt_one(pt, contender)
+        sc = {'kind': 'preempt', 'contender': contender, 'point': pt}
+        acc.case(repr(sc), nontrivial=True, outcome=(bool(probs), where))
+        if probs:
+            acc.violation(probs[0].split(' in state ')[0], sc, None, probs[:3] + ["job thread held at %s" % where])
+    acc.sample({'kind': 'preempt', 'contender': contender, 'line_events': n1})
+    return acc
+
+
 def worker(item):
     if item[0] == 'dynamic':
         return dynamic_worker(item)
+    if item[0] == 'preempt':
+        return preempt_worker(item)
     kind, ri, has_addr, pgns, das, seed = item
     acc = Acc()
     sc = {'kind': kind, 'responder_config': ri, 'requester_has_address': has_addr}
@@ -273,12 +367,24 @@ def run(tier, seed):
         for i in range(0, 1 << 18, step):
             items.append(('all_pgns', ri, True, allp[i:i + step], [0x20, 255] if tier == 'quick' else [0x20, 0x21, 0x33, 255], seed))
     items.append(('dynamic', seed))
+    items.append(('preempt', False, seed))
+    items.append(('preempt', True, seed))
     return run_check(PROP, tier, seed, 'exploration', items, worker, RULE, ASSUME,
                      bounds={'pgns': '2^18', 'destinations': 256})
 
 
 def replay(rec):
     sc = rec['scenario']
+    if sc.get('kind') == 'preempt':
+        n, probs, where, trace = preempt_one(sc['point'], sc['contender'], keep=True)
+        print("\n".join(trace))
+        print("job thread held at %s" % where)
+        if probs:
+            print("REPRODUCED: " + "; ".join(probs[:3]))
+            print("VIOLATION property=%s replay=(this file)" % PROP)
+            return 1
+        print("no violation on this tree")
+        return 0
     if sc.get('kind') == 'dynamic':
         a = dynamic_worker(('dynamic', rec.get('seed', 0)))
         mine = [v for v in a.violations if v['scenario'] == sc]
